@@ -547,6 +547,11 @@ def _lis_item_lists():
     p79 = c06.base_spec([c06.chan('TIME', 79)], 3, 1, updown=0)
     small += [['file_head', ['pass', pa, 0], 'file_tail', 'file_head', ['pass', p79, 1], 'file_tail'],
               ['file_head', ['pass', p79, 1], 'file_tail', 'file_head', ['pass', pa, 0], 'file_tail']]
+    # logs whose first frame is at X = 0 (a log from surface, a time log from the start of the clock): a zero is a value like any other
+    for xch in (c06.chan('DEPT', 68), c06.chan('TIME', 73), c06.chan('TIME', 79)):
+        for updown in (1, 255):
+            p0 = c06.base_spec([xch, c06.chan('GR  ', 68)], 4, 2, x0=0, updown=updown)
+            small += [['file_head', ['pass', p0, 0], 'file_tail'], ['file_head', ['pass', p0, 0], 'file_tail', 'file_head', ['pass', pa, 1], 'file_tail']]
     for items in small + [it for it, _layout, _ops in c06.gen_I('quick')]:
         key = repr(items)
         if key not in seen:
